@@ -63,7 +63,7 @@ def gen_session(rng, sid, prof):
     alphabet = prof.get("alphabet", W1)
     cfg = {"cmd": rng.choice(prof.get("cmd", [8])), "hcap": rng.choice(prof.get("hcap", [16])), "set": set_id,
            "prompt": rng.choice(prof.get("prompts", [0])), "partial": rng.choice(prof.get("partial", [0])),
-           "poison": prof.get("poison", False)}
+           "poison": prof.get("poison", False), "rawproc": rng.random() < prof.get("rawproc", 0.3)}
     enter_forms = prof.get("enter_forms", [[13]])
     texts = prof.get("texts", OUT_TEXTS)
     methods = prof.get("methods", ("w", "wl", "u", "f"))
